@@ -10,7 +10,7 @@ META = dict(
                'a conflicting task start while A is inside, atomic per-tile writers_in/readers_in counters in the bodies see it. For all conflicting pairs (same tile, one '
                'writes) exit(earlier) < enter(later) by global stamps - in particular a writer never starts before a reader inserted before it has left. Readers between the '
                'same writers are observed inside together (reachability witness). A one-stream leg enumerates every insert/execute interleaving for the ordering half.',
-    level_note='Task bodies and runtime actions (prepare_input, completion, insertion) are atomic with respect to each other except for the held body: instruction-level races '
+    level_note='Hold/order legs: task bodies and runtime actions (prepare_input, completion, insertion) are atomic with respect to each other except for the held body; mt legs: 3-4 free-running streams behind the real scheduler module with every insertion serialised against task prepare/execute/complete on the other streams: instruction-level races '
                'between a completing predecessor and a concurrent insertion are NOT explored (NOTES.md finding F5). Legs run with task-object recycling suppressed and without '
                'tasks naming a tile twice (known findings C03-stale-last-user-aba, C03-dup-tile-reader-count, exercised by the C03 check). runtime_keep_highest_priority_task=0 so '
                'that every ready task passes through the scheduler.',
@@ -19,6 +19,7 @@ RULE = ("states = canonical programs per leg; executions = complete taskpool cyc
         "non-trivial = choice list deviates from the default order; outcomes = distinct (program, configuration, held task, trace) signatures; "
         "extra counters per leg: overlapped_with_held = tasks started on stream 0 while the held task was inside, runs_with_readers_together, again_resubmissions")
 ASSUME = ["task-level atomicity except for the held body (see level_note)",
+          "mt legs: the main thread inserts only while no other stream holds a task (wrapped scheduler module); default window only; overlap of independent tasks is whatever the OS scheduler produces",
           "driver keeps completed task objects out of the class free lists while a taskpool lives (--norecycle); no task names a tile twice",
           "harness scheduler replaces the scheduler module (parsec_current_scheduler); runtime_keep_highest_priority_task=0",
           "DTD hash tables reduced to 64 buckets"]
@@ -40,11 +41,14 @@ def check(ctx):
         leg('hold-le2', ['--leg', 'hold', '--nt', '1:2', '--maxp', '2', '--win', '0,0;1,1;2,1', '--jobs', '8'], 60)
         leg('hold-3', ['--leg', 'hold', '--nt', '3:3', '--maxp', '2', '--win', '0,0', '--stride', '96', '--jobs', '8'], 60)
         leg('order-le2', ['--leg', 'gate', '--nt', '1:2', '--maxp', '2', '--win', '0,0;1,1', '--jobs', '8'], 60)
+        leg('mt-3t', ['--leg', 'mt', '--threads', '3', '--oracle', '3', '--nt', '1:3', '--maxp', '2', '--win', '0,0', '--api', '3', '--spin', '1000', '--stride', '12', '--jobs', '6'], 60)
     else:
         leg('hold-le2', ['--leg', 'hold', '--nt', '1:2', '--maxp', '3', '--alpha', 't', '--win', '0,0;1,1;2,1;4,2', '--nest', '1', '--jobs', '12'], 240)
         leg('hold-3', ['--leg', 'hold', '--nt', '3:3', '--maxp', '2', '--win', '0,0;1,1', '--stride', '3', '--jobs', '12'], 500)
         leg('order-le2', ['--leg', 'gate', '--nt', '1:2', '--maxp', '2', '--nest', '1', '--jobs', '12'], 150)
         leg('order-3', ['--leg', 'gate', '--nt', '3:3', '--maxp', '2', '--win', '0,0', '--stride', '5', '--jobs', '12'], 250)
+        leg('mt-3t', ['--leg', 'mt', '--threads', '3', '--oracle', '3', '--nt', '1:3', '--maxp', '2', '--win', '0,0', '--api', '3', '--spin', '1000', '--stride', '2', '--jobs', '8'], 200)
+        leg('mt-4t-scheds', ['--leg', 'mt', '--threads', '4', '--oracle', '3', '--nt', '1:3', '--maxp', '2', '--win', '0,0', '--api', '1', '--spin', '1000', '--stride', '24', '--allscheds', '1', '--exclude', 'll,llp,ip'], 300)
     return ctx.finish(RULE, ASSUME)
 
 def replay(ctx, path, obj):
